@@ -6,8 +6,8 @@ set -u
 SD="$(realpath "$1")"; CRATE="$2"; DEMO="$3"; shift 3
 WT="$(mktemp -d /tmp/confirm-XXXXXX)"; rmdir "$WT"
 git -C /repo worktree add -q --detach "$WT" HEAD || exit 3
-trap 'git -C /repo worktree remove --force "$WT" 2>/dev/null; rm -rf "$WT"' EXIT
-export CARGO_TARGET_DIR=/tmp/seed/target CARGO_NET_OFFLINE=true
+trap 'git -C /repo worktree remove --force "$WT" 2>/dev/null; rm -rf "$WT" "$WT-target"' EXIT
+export CARGO_TARGET_DIR="$WT-target" CARGO_NET_OFFLINE=true
 cd "$WT"
 git apply "$SD/patch.diff" || { echo "PATCH DOES NOT APPLY"; exit 3; }
 echo "== existing tests of $CRATE with the patch"
